@@ -30,6 +30,7 @@ import (
 	"bytes"
 	"encoding/hex"
 	"fmt"
+	"math"
 	"math/rand"
 	"slices"
 	"strings"
@@ -55,6 +56,7 @@ func Run(o *drv.Out) {
 	for ci := 0; ci < nCases; ci++ {
 		execdrv.Guard(o, func() { failedTxCase(o, ci, nHeights) })
 	}
+	execdrv.Guard(o, func() { closeOrderCase(o) })
 	indexVariants := 3
 	if o.Tier == "thorough" || o.Search {
 		indexVariants = 10
@@ -491,6 +493,172 @@ func failedEventsCase(o *drv.Out, variant int) {
 		o.Nontrivial(fmt.Sprintf("%s|%d", o.CurCase(), hi))
 	}
 	o.Sample(o.CurCase() + ": certificate results that emit an order-book-lock event and then fail as the last executed transaction leave no event in the proposal, the block or the next block; the same lock order in succeeding certificate results does")
+}
+
+// closeOrderCase: scenario "close-order-instruction-all-or-nothing". The instructions inside the
+// certificate results of a nested chain (lock / reset / close order) are executed by HandleCommitteeSwaps,
+// which only LOGS an instruction's error: the surrounding certificate-results transaction succeeds and
+// its nested store is flushed. "A failed operation leaves no trace" for such an instruction: a close
+// order either does all of (escrow pool -AmountForSale, buyer +AmountForSale, order deleted,
+// order-book-swap event) or none of it.
+//
+// Sell orders of committee 2 with AmountForSale != RequestedAmount in both directions (3e9 for 1e9,
+// 2e9 for 5e9), locked to one buyer receive account by certificate results. The genesis gives that
+// buyer account 2^64-1 minus everything else (total supply exactly 2^64-1); the block rewards minted
+// afterwards (1e15 per block) let the proposer top it up to the integer edges around
+// MaxUint64-AmountForSale and MaxUint64-RequestedAmount (-1, exact, +1). At each edge one order is
+// closed by certificate results and the four effects are compared.
+func closeOrderCase(o *drv.Out) {
+	o.Case("close-order-instruction-all-or-nothing")
+	rng := rand.New(rand.NewSource(62))
+	const nested = node.ChainId + 1
+	escrow := uint64(nested) + uint64(fsm.EscrowPoolAddend)
+	var buyer crypto.PrivateKeyI
+	net := node.NewNetwork(28, 4, nil, 6, node.Options{AccountBalance: 50_000_000_000, TokensPerBlock: 1_000_000_000_000_000, MutateGenesis: func(g *fsm.GenesisState) {
+		total := uint64(0)
+		for _, v := range g.Validators {
+			v.Committees = []uint64{node.ChainId, nested}
+			total += v.StakedAmount
+		}
+		g.Validators[0].Compound = false // the proposer's rewards go to its account
+		g.Pools = append(g.Pools, &fsm.Pool{Id: nested, Amount: 1})
+		for _, p := range g.Pools {
+			total += p.Amount
+		}
+		// the last funded account is the buyer: everything the others do not hold
+		for _, a := range g.Accounts[:len(g.Accounts)-1] {
+			total += a.Amount
+		}
+		g.Accounts[len(g.Accounts)-1].Amount = math.MaxUint64 - total
+	}})
+	defer net.Close()
+	buyer = net.AcctKeys[len(net.AcctKeys)-1]
+	buyerAddr := node.Addr(buyer)
+	c := execdrv.NewChain(o, net, rng, []int{16, 2})
+	c.CanonErrors = true
+	A, B := c.NewNode("A", 0), c.NewNode("B", 1)
+	signers := []int{0, 1, 2, 3}
+	nestedHeight := uint64(0)
+	certTx := func(h uint64, orders *lib.Orders) []byte {
+		nestedHeight++
+		return net.CertificateResultsTx(A, nested, nestedHeight, h-1, 0, signers, &lib.CertificateResult{
+			RewardRecipients: &lib.RewardRecipients{PaymentPercents: []*lib.PaymentPercents{{Address: net.FreshAddr(1), Percent: 100, ChainId: nested}}}, Orders: orders}, h)
+	}
+	// one block on A and B; false when it does not go through
+	block := func(what string, txs ...[]byte) (uint64, bool) {
+		h := A.Height()
+		for _, tx := range txs {
+			if err := A.Submit(tx); err != nil {
+				panic(err)
+			}
+		}
+		pre := A.StateDigest()
+		p, ok := c.Propose(A, nil, "produce")
+		if !ok {
+			return h, false
+		}
+		c.Hold = true
+		okA := c.Validate(A, p)
+		if okA {
+			c.Commit(A, p, false)
+		}
+		o.Op(fmt.Sprintf("def %d %s %s %s %s", h, pre, p.ID, A.StateDigest(), p.Obs), "def")
+		c.Release()
+		if !okA || !c.Validate(B, p) || p.NTx != len(txs) {
+			o.Fail("C07:scenario-expectation-differs:close-order-instruction-all-or-nothing", fmt.Sprintf("height %d (%s): block accepted by the proposer: %v, %d of %d transactions included", h, what, okA, p.NTx, len(txs)), map[string]any{"case": o.CurCase(), "height": h, "block": hex.EncodeToString(p.Block)})
+			return h, false
+		}
+		c.Commit(B, p, false)
+		return h, true
+	}
+	type spec struct{ sale, requested uint64 }
+	dirs := []spec{{3_000_000_000, 1_000_000_000}, {2_000_000_000, 5_000_000_000}}
+	// the edges of the buyer balance, ascending per direction, with the order direction closed there
+	type edge struct {
+		dir   int
+		below uint64 // buyer balance = MaxUint64 - below + plus - minus
+		plus  uint64
+		minus uint64
+	}
+	var edges []edge
+	for d, sp := range dirs {
+		lo, hi := sp.sale, sp.requested
+		edges = append(edges,
+			edge{d, lo, 0, 1}, edge{d, lo, 0, 0}, edge{d, lo, 1, 0},
+			edge{d, hi, 0, 1}, edge{d, hi, 0, 0}, edge{d, hi, 1, 0})
+	}
+	// h1: the sell orders (one per edge), h2: all of them locked to the buyer account
+	var ids [][]byte
+	var creates [][]byte
+	for i, e := range edges {
+		tx := net.CreateOrderTx(net.AcctKeys[i%4], nested, dirs[e.dir].sale, dirs[e.dir].requested, net.FreshAddr(800+i), minFee+uint64(100*(20-i)), A.Height())
+		creates, ids = append(creates, tx), append(ids, node.OrderId(tx))
+	}
+	if _, ok := block("create the sell orders", creates...); !ok {
+		return
+	}
+	var locks []*lib.LockOrder
+	for _, id := range ids {
+		locks = append(locks, &lib.LockOrder{OrderId: id, ChainId: nested, BuyerReceiveAddress: buyerAddr, BuyerSendAddress: net.FreshAddr(72), BuyerChainDeadline: 100000})
+	}
+	if _, ok := block("lock the sell orders to the buyer account", certTx(A.Height(), &lib.Orders{LockOrders: locks})); !ok {
+		return
+	}
+	for i, e := range edges {
+		sp := dirs[e.dir]
+		target := math.MaxUint64 - e.below + e.plus - e.minus
+		// bring the buyer account to the edge: the proposer (whose account receives the minted rewards) tops it up, or the buyer sends the surplus away
+		for tries := 0; A.Balance(buyerAddr) != target && tries < 3; tries++ {
+			cur, h := A.Balance(buyerAddr), A.Height()
+			var tx []byte
+			if cur < target {
+				tx = net.SendTx(net.ValKeys[0], buyerAddr, target-cur, minFee, h, "")
+			} else {
+				tx = net.SendTx(buyer, net.FreshAddr(880+i), cur-target-minFee, minFee, h, "")
+			}
+			if _, ok := block(fmt.Sprintf("move the buyer balance from %d to the edge %d; the proposer's account holds %d", cur, target, A.Balance(node.Addr(net.ValKeys[0]))), tx); !ok {
+				return
+			}
+		}
+		where := fmt.Sprintf("order %d for %d, buyer receive balance MaxUint64-%d+%d-%d", sp.sale, sp.requested, e.below, e.plus, e.minus)
+		if A.Balance(buyerAddr) != target {
+			o.Fail("C07:scenario-expectation-differs:close-order-instruction-all-or-nothing", fmt.Sprintf("%s: the buyer balance is %d, the edge %d was not reached", where, A.Balance(buyerAddr), target), map[string]any{"case": o.CurCase()})
+			return
+		}
+		escrow0, buyer0, order0 := A.PoolAmount(escrow), A.Balance(buyerAddr), A.Order(nested, ids[i])
+		h, ok := block("close order by certificate results: "+where, certTx(A.Height(), &lib.Orders{CloseOrders: [][]byte{ids[i]}}))
+		if !ok {
+			return
+		}
+		escrow1, buyer1, order1 := A.PoolAmount(escrow), A.Balance(buyerAddr), A.Order(nested, ids[i])
+		swapEvent := false
+		for _, d := range node.DescribeEvents(A.BlockEvents(h)) {
+			swapEvent = swapEvent || strings.HasPrefix(d, string(lib.EventTypeOrderBookSwap))
+		}
+		effects := []bool{escrow0-escrow1 == sp.sale, buyer1-buyer0 == sp.sale, order0 != nil && order1 == nil, swapEvent}
+		none := escrow1 == escrow0 && buyer1 == buyer0 && order1 != nil && !swapEvent
+		all := effects[0] && effects[1] && effects[2] && effects[3]
+		o.Count("close-instructions-compared")
+		desc := fmt.Sprintf("escrow pool %d -> %d (AmountForSale %d), buyer %d -> %d, order on the book before/after: %v/%v, order-book-swap event: %v", escrow0, escrow1, sp.sale, buyer0, buyer1, order0 != nil, order1 != nil, swapEvent)
+		if !all && !none {
+			o.Fail("C07:failed-instruction-left-trace:close-order",
+				fmt.Sprintf("height %d, %s: the close-order instruction of a successful certificate-results transaction is partially executed: %s", h, where, desc),
+				map[string]any{"case": o.CurCase(), "height": h, "order_id": hex.EncodeToString(ids[i]), "amount_for_sale": sp.sale, "requested_amount": sp.requested, "buyer_balance_before": buyer0,
+					"escrow_before": escrow0, "escrow_after": escrow1, "buyer_balance_after": buyer1, "order_deleted": order1 == nil, "swap_event": swapEvent})
+			return
+		}
+		if expect := target <= math.MaxUint64-sp.sale; all != expect { // the transfer fits the buyer account or it does not
+			o.Fail("C07:scenario-expectation-differs:close-order-instruction-all-or-nothing", fmt.Sprintf("height %d, %s: close executed: %v, expected %v (%s)", h, where, all, expect, desc), map[string]any{"case": o.CurCase(), "height": h})
+			return
+		}
+		if d := node.DiffDumps(A.StateDump(), B.StateDump()); len(d) != 0 {
+			o.Fail("C07:failed-instruction-left-trace:close-order", fmt.Sprintf("height %d, %s: proposer's and replica's state differ (%d keys, first %s)", h, where, len(d), d[0]), map[string]any{"case": o.CurCase(), "height": h})
+			return
+		}
+		o.Count(fmt.Sprintf("close-order-edge:executed=%v", all))
+		o.Nontrivial(fmt.Sprintf("%s|%d", o.CurCase(), i))
+	}
+	o.Sample(fmt.Sprintf("close-order-instruction-all-or-nothing: %d close instructions at the buyer-balance edges MaxUint64-AmountForSale / MaxUint64-RequestedAmount (-1, 0, +1), both order directions: each all-or-nothing", len(edges)))
 }
 
 // indexWritingCase: transactions whose handlers write to the INDEXER (the property names state,
